@@ -23,9 +23,17 @@ structure Inv (H : Bytes → Bytes) (done : List Bytes) (acc : List Bytes × Lis
   idx : ∀ i (hi : i < done.length), ∃ j u, acc.2[i]? = some j ∧ acc.1[j]? = some u ∧ H u = H done[i]
   sub : ∀ u ∈ acc.1, u ∈ done
   first : acc.2.eraseDups = List.range acc.1.length
+  count : acc.1.length ≤ done.length
+
+theorem Inv.order_lt {H : Bytes → Bytes} {done : List Bytes} {acc : List Bytes × List Nat}
+    (inv : Inv H done acc) : ∀ i ∈ acc.2, i < acc.1.length := by
+  intro i hi
+  have : i ∈ acc.2.eraseDups := List.mem_eraseDups.mpr hi
+  rw [inv.first] at this
+  simpa using this
 
 theorem inv_nil (H : Bytes → Bytes) : Inv H [] ([], []) := by
-  refine ⟨by simp, rfl, ?_, ?_, by simp⟩
+  refine ⟨by simp, rfl, ?_, ?_, by simp, by simp⟩
   · intro i hi; simp at hi
   · intro u hu; simp at hu
 
@@ -63,8 +71,8 @@ theorem idx_snoc {H : Bytes → Bytes} {done : List Bytes} {uniq uniq' : List By
 theorem inv_step {H : Bytes → Bytes} {done : List Bytes} {acc : List Bytes × List Nat} (c : Bytes)
     (inv : Inv H done acc) : Inv H (done ++ [c]) (step H acc c) := by
   obtain ⟨uniq, order⟩ := acc
-  obtain ⟨hnd, hlen, hidx, hsub, hfirst⟩ := inv
-  simp only at hnd hlen hidx hsub hfirst
+  obtain ⟨hnd, hlen, hidx, hsub, hfirst, hcount⟩ := inv
+  simp only at hnd hlen hidx hsub hfirst hcount
   unfold step
   simp only
   have hlt : ∀ x ∈ order, x < uniq.length := by
@@ -76,7 +84,7 @@ theorem inv_step {H : Bytes → Bytes} {done : List Bytes} {acc : List Bytes × 
   · rename_i i hfi
     obtain ⟨hi, hp, -⟩ := List.findIdx?_eq_some_iff_getElem.mp hfi
     have hp' : H uniq[i] = H c := by simpa using hp
-    refine ⟨hnd, by simp [hlen], ?_, ?_, ?_⟩
+    refine ⟨hnd, by simp [hlen], ?_, ?_, ?_, by simp; omega⟩
     · exact idx_snoc hlen hidx (fun _ _ h => h) (List.getElem?_eq_getElem hi) hp'
     · intro u hu; simp [hsub u hu]
     · simp only
@@ -88,7 +96,7 @@ theorem inv_step {H : Bytes → Bytes} {done : List Bytes} {acc : List Bytes × 
       intro u hu
       have := List.findIdx?_eq_none_iff.mp hfn u hu
       simpa using this
-    refine ⟨?_, by simp [hlen], ?_, ?_, ?_⟩
+    refine ⟨?_, by simp [hlen], ?_, ?_, ?_, by simp; omega⟩
     · simp only [List.map_append, List.map_cons, List.map_nil]
       rw [List.nodup_append]
       refine ⟨hnd, by simp, ?_⟩
